@@ -17,13 +17,13 @@ LEVEL_TEXT = ('each point performs a real put -> history -> restore round trip; 
               'snapshot(after restore) incl. modes and mtimes, exactly that pair gone from the trash and nothing else changed')
 LEVEL_NOTE = 'trusted: CPython/shutil, tmpfs, shim mount rules; names limited to the alphabet (non-UTF-8 names are C16 territory)'
 RULE = ('names (24, incl. spaces, newlines, %, leading -, non-ASCII, 255 bytes) x kinds (6) x layout (home, .Trash/uid, .Trash-uid, '
-        '--trash-dir, .Trash-uid next to insecure .Trash/uid directories on two volumes, .Trash-uid being a symbolic link, home trash with a 1.4 KB original directory, another volume whose trash directories are blocked + home fallback = a copy across file systems both ways) x sort (date,path,none) x scope (cwd=dir, cwd=ancestor, cwd=/, explicit absolute path, path relative to the working directory) x history (6); quick tier '
+        '--trash-dir, .Trash-uid next to insecure .Trash/uid directories on two volumes, .Trash-uid being a symbolic link, home trash with a 1.4 KB original directory, another volume whose trash directories are blocked + home fallback = a copy across file systems both ways, home trash on its own volume, --trash-dir spelled relative to the working directory of each command) x sort (date,path,none) x scope (cwd=dir, cwd=ancestor, cwd=/, explicit absolute path, path relative to the working directory) x history (6); quick tier '
         'restricts names to 12 (incl. trailing blank / tab / newline inside / %XX / leading dash / non-ASCII / 255 bytes), scopes to 2 and histories to 3; non-trivial = listing printed and index chosen; distinct = '
         'outcome class x all dimensions')
 NAMES = ['a.trashinfo.bak', 'a', 'a b', ' lead', 'trail ', 'a\nb', 'a\rb', 'tab\t', '%41', 'a%', '%', '-x', '--', 'é', '日本', '.hidden',
          'a.trashinfo', '*?[', '=', '#', '+', '&;', '"\'', '\\', 'L' * 255, '..notes', '...', '~', '~u']
 QNAMES = ['a', 'trail ', 'a\nb', '%41', '-x', '日本', 'tab\t', 'L' * 255, 'a.trashinfo.bak', '.hidden', '..notes', '...', '~']
-LAYOUTS = ['home', 'top-sticky', 'top-alt', 'trash-dir', 'top-alt-insecure', 'top-alt-link', 'home-deep', 'vol-fallback']
+LAYOUTS = ['home', 'top-sticky', 'top-alt', 'trash-dir', 'top-alt-insecure', 'top-alt-link', 'home-deep', 'vol-fallback', 'home-ownvol', 'trash-dir-rel']
 DEEP = '/'.join(('%dé' % i) + 'é' * 99 for i in range(7))          # seven levels of 100 two-byte characters: the Path= line is longer than 4096 bytes
 SORTS = ['date', 'path', 'none']
 SCOPES = ['dir', 'ancestor', 'root', 'path-arg', 'rel-path-arg']
@@ -56,13 +56,19 @@ def cases(tier):
     return out
 
 
+def _td(tdopt, rel, cwd):
+    import os
+    return ['--trash-dir', os.path.relpath(tdopt[1], cwd)] if (rel and tdopt) else tdopt
+
+
 def run_case(c):
     vol = c['lay'].startswith('top-') or c['lay'] == 'vol-fallback'
     B = '/mnt/v1/data/w' if vol else '/home/u/data/w'
     if c['lay'] == 'home-deep':
         B = '/home/u/data/' + DEEP + '/w'
     # (/mnt/v2 is one more volume with an empty trash directory of its own, listed after the others)
-    W = scen.base_world(mounts=['/', '/mnt/v0', '/mnt/v1', '/mnt/v2'] if c['lay'] == 'top-alt-insecure' else ['/', '/mnt/v1', '/mnt/v2'], cwd=B)
+    W = scen.base_world(mounts=(['/', '/mnt/v0', '/mnt/v1', '/mnt/v2'] if c['lay'] == 'top-alt-insecure' else ['/', '/mnt/v1', '/mnt/v2']) +
+                        (['/home'] if c['lay'] == 'home-ownvol' else []), cwd=B)          # home-ownvol: /home is a mount point, the home trash lives on it
     scen.add_trash_dir(W, '/mnt/v2/.Trash-0')
     if c['lay'] == 'top-alt-insecure':
         # both the entry's volume and a volume listed before it have a .Trash that is not sticky but already contains a $uid directory:
@@ -74,11 +80,12 @@ def run_case(c):
     W.dir(B, mode=0o751)
     n = c['name']
     E = B + '/' + n
-    scen.add_entry(W, E, c['kind'])
+    scen.add_entry(W, E, c['kind'] if not (c['kind'] == 'tree' and c['sort'] == 'path') else 'tree-ro')          # (a third of the trees has no write permission bit anywhere)
     scen.add_entry(W, B + '/other', 'file')
     if c['lay'] == 'top-sticky':
         W.dir('/mnt/v1/.Trash', mode=0o1777)
-    tdopt = ['--trash-dir', '/home/u/mytrash'] if c['lay'] == 'trash-dir' else []
+    tdopt = ['--trash-dir', '/home/u/mytrash'] if c['lay'] in ('trash-dir', 'trash-dir-rel') else []
+    rel_td = c['lay'] == 'trash-dir-rel'          # the same directory, every command naming it relative to its own working directory
     putopt, putenv = [], None
     if c['lay'] == 'vol-fallback':
         # both trash directories of the volume are unusable and the home fallback is enabled: the put is a copy across file systems, and so is the restore
@@ -89,23 +96,23 @@ def run_case(c):
         orig = sb.snapshot()
         h = c['hist']
         if h in ('older-same-name', 'same-second-twin'):
-            r = sb.run(['trash-put'] + putopt + tdopt + ['--', n], cwd=B, now=T_OLD if h == 'older-same-name' else T_US, env=putenv)
+            r = sb.run(['trash-put'] + putopt + _td(tdopt, rel_td, B) + ['--', n], cwd=B, now=T_OLD if h == 'older-same-name' else T_US, env=putenv)
             world.build(sb.root, [x for x in W.spec()['nodes'] if x[1] == E or x[1].startswith(E + '/')])
             # re-created original has to be byte-identical to orig for the oracle: rebuild resets mtimes
             orig = sb.snapshot()
         # directory-like entries are named with two trailing slashes in a third of the points (the entry trashed is still the link / the directory itself)
         spelled = n + '//' if (c['kind'] in ('tree', 'ldir') and c['sort'] == 'none') else n
-        r = sb.run(['trash-put'] + putopt + tdopt + ['--', spelled], cwd=B, now=T_US, env=putenv)
+        r = sb.run(['trash-put'] + putopt + _td(tdopt, rel_td, B) + ['--', spelled], cwd=B, now=T_US, env=putenv)
         if r.exit != 0:
             return {'verdict': 'dontcare', 'klass': 'put-failed', 'detail': r.err[-300:]}
         if h == 'unrelated-after':
-            sb.run(['trash-put'] + putopt + tdopt + ['other'], cwd=B, now=T_NEW, env=putenv)
+            sb.run(['trash-put'] + putopt + _td(tdopt, rel_td, B) + ['other'], cwd=B, now=T_NEW, env=putenv)
         elif h == 'other-restored-first':
-            sb.run(['trash-put'] + putopt + tdopt + ['other'], cwd=B, now=T_OLD, env=putenv)
-            sb.run(['trash-restore'] + tdopt + [B + '/other'], cwd='/', stdin='0\n')
+            sb.run(['trash-put'] + putopt + _td(tdopt, rel_td, B) + ['other'], cwd=B, now=T_OLD, env=putenv)
+            sb.run(['trash-restore'] + _td(tdopt, rel_td, '/') + [B + '/other'], cwd='/', stdin='0\n')
         elif h == 'empty-1-between':
-            sb.run(['trash-put'] + putopt + tdopt + ['other'], cwd=B, now=T_OLD, env=putenv)
-            sb.run(['trash-empty'] + tdopt + ['2'], cwd='/', env=dict(W.env, TRASH_DATE='2024-01-06T10:00:00'))
+            sb.run(['trash-put'] + putopt + _td(tdopt, rel_td, B) + ['other'], cwd=B, now=T_OLD, env=putenv)
+            sb.run(['trash-empty'] + _td(tdopt, rel_td, '/') + ['2'], cwd='/', env=dict(W.env, TRASH_DATE='2024-01-06T10:00:00'))
         elif h == 'parent-removed':
             import shutil
             shutil.rmtree(sb.root + '/'.join(B.split('/')[:-1]))      # removes .../data (with w inside)
@@ -115,7 +122,7 @@ def run_case(c):
         if h == 'parent-removed' and scope in ('dir',):
             cwd = '/'            # the directory no longer exists; restore from / instead
         relarg = ['--', n] if n.startswith('-') else [n]
-        argv = ['trash-restore', '--sort', c['sort']] + tdopt + ([E] if scope == 'path-arg' else (relarg if scope == 'rel-path-arg' else []))
+        argv = ['trash-restore', '--sort', c['sort']] + _td(tdopt, rel_td, cwd) + ([E] if scope == 'path-arg' else (relarg if scope == 'rel-path-arg' else []))
         r1 = sb.run(argv, cwd=cwd, stdin='\n')       # listing only (empty reply restores nothing)
         listing = scen.parse_restore_listing(r1.out)
         want = [i for (i, d, p) in listing if p == E and d == T_US.replace('T', ' ')]
